@@ -82,6 +82,9 @@ func genCtl(r *simrt.Rand, tier string, flavor string) json.RawMessage {
 		case x < 78:
 			c.Ops = append(c.Ops, W3Op{K: "crash", Node: r.Range(1, nodes)})
 		case x < 84:
+			if r.Bool(0.5) {
+				c.Ops = append(c.Ops, W3Op{K: "svcread", Node: r.Range(1, nodes), A: r.Intn(2)})
+			}
 			c.Ops = append(c.Ops, W3Op{K: "wait", Ms: r.Range(10200, 12000)}) // snapshot ticker
 		case x < 88 && nodes > 1:
 			c.Ops = append(c.Ops, W3Op{K: "isolate", Node: r.Range(2, nodes)})
